@@ -131,6 +131,8 @@ class History:
         self.nports = case["ports"]
         self.rig = udptx.Rig(self.nports)
         self.rig.raise_on = set(case.get("raise_on", []))
+        self.rig.raise_salt = case.get("raise_salt", 0)
+        self.rig.scribble = bool(case.get("scribble"))
         self.sent = []
         self.built = []
         self.traveller = None
@@ -357,6 +359,7 @@ def dgram(nports):
 def strat(nports):
     return lambda: st.builds(
         lambda ds, ro, rs, cb, rv, nl: dict({"ports": nports, "dgrams": ds, "raise_on": sorted(set(ro))}, **({"restarts": rs} if rs else {}),
+                                            **({"raise_salt": len(ds) % 8} if ro else {}), **({"scribble": True} if len(ds) % 3 == 0 else {}),
                                             **({"callback": cb} if cb != "bound-method" else {}), **({"rival_at": rv} if rv is not None else {}),
                                             **({"new_loop_at": nl} if nl is not None else {})),
         st.one_of(st.lists(dgram(nports), min_size=1, max_size=60), st.lists(dgram(nports), min_size=12, max_size=60)),
@@ -386,6 +389,14 @@ def cases_scenarios(tier):
                 ds = [{"kind": "valid", "port": 0, "family": k % 9, "seed": k} for k in range(n + 1)]
                 out.append({"ports": nports, "dgrams": ds + tail, "raise_on": list(range(1, n + 1)), "scenario": "run-of-raising-callbacks"})
         for fam in range(len(FAMILIES)):
+            for salt in range(8):
+                # the callback fails (each exception class in turn) on a broadcast, which the device then repeats unchanged
+                ds = [{"kind": "valid", "port": 0, "family": fam, "seed": 40 + fam}, {"kind": "repeat", "port": 0, "family": fam, "of": 0},
+                      {"kind": "repeat", "port": (1 if salt % 2 else 0), "family": fam, "of": 0}, {"kind": "valid", "port": 0, "family": fam, "seed": 41 + fam}]
+                out.append({"ports": 2, "dgrams": ds, "raise_on": [0], "raise_salt": salt, "scenario": "repeat-after-failing-callback"})
+            ds = [{"kind": "valid", "port": 0, "family": fam, "seed": 50 + fam}, {"kind": "repeat", "port": 0, "family": fam, "of": 0},
+                  {"kind": "repeat", "port": 1, "family": fam, "of": 0}]
+            out.append({"ports": 2, "dgrams": ds, "raise_on": [], "scribble": True, "scenario": "repeat-after-callback-edited-the-device"})
             for back in (-1, -61, -3600, -86_400):
                 ds = [{"kind": "valid", "port": 0, "family": fam, "seed": fam}, {"kind": "clock", "delta": back},
                       {"kind": "repeat", "port": 0, "family": fam, "of": 0}, {"kind": "clock", "delta": -5},
